@@ -118,7 +118,7 @@ REGISTRY = {
         "trusted_base": COMMON_TRUST, "assumptions": [EXTERNAL, "gzip decompression and FASTA line joining (needletail) are exercised through the CLI only"],
     },
     "C04": {
-        "level": "proof", "modules": ["SkaModel.Props.C04"], "gen": ["C04"],
+        "level": "proof", "modules": ["SkaModel.Props.C04", "SkaModel.Props.C04Writer"], "gen": ["C04"],
         "rule": "references of 1-5 contigs (lengths 1, h, k-1, k, k+1, .., N runs, planted repeats on both strands, lower/mixed case) x samples derived by SNPs, indels, block deletions of every length 0..2k+2, rearranged/reverse-complemented/missing contigs, or tables with ambiguity codes; all four mask combinations; plus AlnWriter driven call by call with every gap length; non-trivial = distinct case lines with at least one mapped k-mer",
         "trusted_base": COMMON_TRUST, "assumptions": [EXTERNAL],
     },
@@ -156,6 +156,11 @@ REGISTRY = {
         "level": "fault_enumeration", "modules": ["SkaModel.Props.C19"], "gen": [], "cli": [cli.c19_cli],
         "rule": "complete enumeration of every truncation point and every single-bit flip of concrete .skf files (64- and 128-bit; thorough: also a multi-frame file at byte stride 9) through the real loader with the lib.rs dispatch; each fault is a distinct non-trivial case; the frame-decoder model is cross-checked against snap on a subset; random faults through every CLI subcommand",
         "trusted_base": COMMON_TRUST, "assumptions": [EXTERNAL, "flips inside compressed payloads / chunk type / length bytes are decided per file by enumeration, not by theorem (2^-32 CRC events)"],
+    },
+    "C12": {
+        "level": "proof", "modules": ["SkaModel.Props.C12"], "gen": ["C12"],
+        "rule": "paired FASTQ read sets drawn from a small genome on both strands with errors and N, lengths k..3k, qualities at min_qual-1/min_qual/min_qual+1, min-count 1-6 (counts hit c-1, c, c+1 across files and strands), min-qual 0-40, three quality rules, k in {5..63}, both strand modes, self-reverse-complement arms; non-trivial = distinct case lines yielding at least one k-mer",
+        "trusted_base": COMMON_TRUST, "assumptions": [EXTERNAL, "exactness is stated under the no-collision hypothesis (ntHash injective on the observed k-mers, no Bloom false positive among them); the collision rate is measured, not proved"],
     },
     "C10": {
         "level": "proof", "modules": ["SkaModel.Props.C10"], "gen": ["C10"],
